@@ -12,7 +12,7 @@
 From Coq Require Import String Ascii List Bool Arith ZArith PrimFloat.
 Import ListNotations.
 Require Import Generated PyBase PyStr Lex Format Symbols Split Merge ParseEq ParseModel Solver SolverF Eval EvalFacts EvalF.
-Require Import CodeGen CodeGenF CodeGenFacts CodeGenFacts2 CodeGenFacts3 CodeGenFacts4 CodeGenFacts5 CodeGenFacts6 CodeGenFacts7 LexFacts CodeGenLexFacts CodeGenSrc CodeGenSrcFacts CodeGenSrcFacts2 CodeGenExamples.
+Require Import CodeGen CodeGenF CodeGenFacts CodeGenFacts2 CodeGenFacts3 CodeGenFacts4 CodeGenFacts5 CodeGenFacts6 CodeGenFacts7 LexFacts CodeGenLexFacts CodeGenSrc CodeGenSrcFacts CodeGenSrcFacts2 CodeGenBlock CodeGenBlockFacts CodeGenExamples.
 Open Scope string_scope.
 
 (* ======================= Part A: the generated text ======================= *)
@@ -285,6 +285,21 @@ Theorem C01_wf_instance_code :
   code_text (render tsA) = Some "self._Yd[t+1] = self._alpha_1[t]*np.exp(self._is_open[t-12]) + min(self._Pin[t+2],1.5)/self._e[t] - self._not_X[t]**2 + 3*self._p[t-1] + (self._in_[t]-self._expo[t])".
 Proof. exact tsA_code. Qed.
 Print Assumptions C01_wf_instance_code.
+
+(* ======================= Part A3: into the class text (Model.CODE) ======================= *)
+
+(* default_converter + textwrap.indent put a one-line statement (every ENDOGENOUS symbol's) into the `{equations}` block
+   unchanged, on its own line, eight blanks in, after its normalised equation as a comment *)
+Theorem C01_statement_enters_class_text_unchanged equation code :
+  equation <> "" -> no_sep equation = true -> no_sep code = true -> is_blank code = false ->
+  indent8 (default_converter equation code) = prefix8 ++ "# " ++ equation ++ nl_s ++ prefix8 ++ code.
+Proof. exact (one_line_statement_in_class_text equation code). Qed.
+Print Assumptions C01_statement_enters_class_text_unchanged.
+Theorem C01_class_text_instance :
+  indent8 (default_converter "Y[t] = X[t-1]" "self._Y[t] = self._X[t-1]")
+  = "        # Y[t] = X[t-1]" ++ nl_s ++ "        self._Y[t] = self._X[t-1]".
+Proof. exact one_line_instance. Qed.
+Print Assumptions C01_class_text_instance.
 
 (* ======================= Part B: what the statements compute ======================= *)
 
